@@ -23,7 +23,10 @@
 //
 // The generators of the random, server and inflight parts are in gen_test.go /
 // inflight_test.go; derive.go holds the path derivations (twins under a
-// joiner, re-structuring into keyed elements) they use.
+// joiner, re-structuring into keyed elements) they use; dress.go holds the
+// request fields the server does not implement (per-subscription mode,
+// intervals, qos, encoding, models, extensions ...), which the server and
+// atomic parts set to arbitrary values and compare with the undressed twin.
 package matchprop
 
 import (
